@@ -148,6 +148,10 @@ def run_symbolic(ob, canary=False):
     order = {}
     for (a, b), gt in ob.order.items():
         order[(a, b)] = gt
+    # every obligation starts from the same index-variable counter: its verdict must not depend on what the worker process
+    # ran before
+    import itertools
+    K._ctr = itertools.count(1)
     w = SymWorld(order=order, unit_sorts=ob.unit_sorts)
     w.diag_tags = getattr(ob, "diag_tags", ())
     w.canary = canary
